@@ -58,6 +58,42 @@ Definition vmerge_same (kind : bool) (name : vname) (c1 c2 : clause) : pyres vmr
   fr <- from_specifier name rs ;;
   Ret (match fr with FAny => VMAny | FEmpty => VMEmpty | FNone => VMNone | FAtom k => VMAtom k end).
 
+(* _normalize_python_version_specifier(marker) for a comparison / ~= / wildcard atom on python_version whose operand is a plain
+   release N(.N)* (no epoch, no pre/post/dev suffix: the code splits the operand TEXT at dots) *)
+Fixpoint strip_to2 (fuel : nat) (r : list N) : list N :=
+  match fuel with
+  | O => r
+  | S f => if Nat.ltb 2 (List.length r) && (last r 1 =? 0) then strip_to2 f (removelast r) else r
+  end.
+Definition normalize_pv (c : clause) : pyres spec :=
+  let r0 := release (c_ver c) in
+  match c_op c with
+  | OpEqStar | OpNeStar => get_specifier c                               (* "*" in splitted *)
+  | op =>
+      let r := match op with OpCompat => r0 | _ => strip_to2 (List.length r0) r0 end in
+      if Nat.ltb 2 (List.length r) then get_specifier c
+      else
+        let r2 := if Nat.eqb (List.length r) 1 then r ++ [0] else r in
+        match op with
+        | OpEq => get_specifier (mkClause OpEqStar (relver 0 r2))
+        | OpNe => get_specifier (mkClause OpNeStar (relver 0 r2))
+        | OpGt => get_specifier (mkClause OpGe (relver 0 (removelast r2 ++ [last r2 0 + 1])))
+        | OpLe => get_specifier (mkClause OpLt (relver 0 (removelast r2 ++ [last r2 0 + 1])))
+        | _ => get_specifier (mkClause op (relver 0 r2))
+        end
+  end.
+
+(* _merge_python_version_single_markers: c_pv on python_version, c_full on python_full_version *)
+Definition vmerge_pv (kind : bool) (c_pv c_full : clause) : pyres vmres :=
+  ns <- normalize_pv c_pv ;;
+  sf <- get_specifier c_full ;;
+  rs <- (if kind then spec_and ns sf else spec_or ns sf) ;;
+  e <- spec_eq rs ns ;;
+  if e then Ret VMFirst                                                   (* the python_version atom is returned *)
+  else
+    fr <- from_specifier PFV rs ;;
+    Ret (match fr with FAny => VMAny | FEmpty => VMEmpty | FNone => VMNone | FAtom k => VMAtom k end).
+
 (* ---- correspondence glue ---- *)
 From Verif Require Import CorrParse.
 Definition fsres_same (a b : fsres) : bool :=
@@ -76,13 +112,17 @@ Inductive bcase :=
 | BView (c : clause) (r : pyres spec)                     (* MarkerExpression(name, op, value).specifier *)
 | BEval (c : clause) (v : version) (b : bool)             (* MarkerExpression(...).evaluate({name: v}) *)
 | BBack (name : vname) (s : spec) (r : pyres fsres)       (* MarkerExpression.from_specifier(name, s) *)
-| BMerge (kind : bool) (name : vname) (c1 c2 : clause) (r : pyres vmres).   (* _merge_single_markers on two atoms of one variable *)
+| BMerge (kind : bool) (name : vname) (c1 c2 : clause) (r : pyres vmres)    (* _merge_single_markers on two atoms of one variable *)
+| BMergePV (kind : bool) (c_pv c_full : clause) (r : pyres vmres)           (* ... on a python_version and a python_full_version atom *)
+| BNormPV (c : clause) (r : pyres spec).                                    (* _normalize_python_version_specifier *)
 Definition check_bcase (c : bcase) : bool :=
   match c with
   | BView k r => res_same spec_same_s (get_specifier k) r
   | BEval k v b => Bool.eqb (atom_sem k v) b
   | BBack n s r => res_same fsres_same (from_specifier n s) r
   | BMerge k n c1 c2 r => res_same vmres_same (vmerge_same k n c1 c2) r
+  | BMergePV k c1 c2 r => res_same vmres_same (vmerge_pv k c1 c2) r
+  | BNormPV c r => res_same spec_same_s (normalize_pv c) r
   end.
 Fixpoint bmismatches (i : N) (l : list bcase) : list N :=
   match l with
